@@ -353,4 +353,15 @@ impl FragmentAssembler {
         out.sort();
         out
     }
+
+    /// Verification hook: moves the last-update instant of every pending sequence back by `by`,
+    /// which is what the passing of that much time without any fragment looks like.
+    pub fn verif_backdate(&mut self, by: Duration) {
+        for msg in self.pending.values_mut() {
+            msg.last_update = msg
+                .last_update
+                .checked_sub(by)
+                .expect("verif_backdate: instant underflow");
+        }
+    }
 }
